@@ -182,6 +182,7 @@ func runModelCheck(c *Ctx, spec modelSpec) *orch.Outcome {
 	o.Extra["blocks_applied_twice_after_a_late_failure"] = orch.SumCounter(rs, "blocks_applied_twice_after_a_late_failure")
 	o.Extra["blocks_retried_after_a_failed_dblock_fetch"] = orch.SumCounter(rs, "blocks_retried_after_a_failed_dblock_fetch")
 	o.Extra["api_requests_between_blocks"] = orch.SumCounter(rs, "api_requests_between_blocks")
+	o.Extra["process_restarts_between_blocks"] = orch.SumCounter(rs, "process_restarts_between_blocks")
 	if len(others) > 0 {
 		o.Extra["mismatches_attributed_to_other_properties_ignored_here"] = others
 	}
@@ -224,6 +225,9 @@ func stdProfiles(c *Ctx, quick, thorough int, feats ...string) []modelParams {
 		if i%2 == 1 {
 			fs = append(append([]string{}, feats...), "retries")
 		}
+		if i%4 == 0 {
+			fs = append(append([]string{}, fs...), "restarts")
+		}
 		ps = append(ps, modelParams{Seed: s, Profile: "mixed", Late: i%3 == 2, Features: fs, Window: thoroughWindow(c, i)})
 	}
 	return ps
@@ -265,6 +269,9 @@ func featProfiles(c *Ctx, quick, thorough int, lateEvery int, feats ...string) [
 		}
 		if i%3 == 2 {
 			fs = append(append([]string{}, fs...), "api-reads") // read-only API requests between blocks
+		}
+		if i%4 == 0 {
+			fs = append(append([]string{}, fs...), "restarts") // a new daemon process takes over before every special height and one height in five
 		}
 		ps = append(ps, modelParams{Seed: s, Profile: "mixed", Late: lateEvery > 0 && i%lateEvery == lateEvery-1, Features: fs, Window: thoroughWindow(c, i)})
 	}
